@@ -112,8 +112,12 @@ def run(ctx):
     for si in range(ctx.budget(18, 80)):
         if len(reqs) >= 15000:
             flush()     # keep memory bounded in long runs
-        bundled = si < len(fam) or rng.random() < 0.6
-        info = fam[si % len(fam)] if bundled else schemas.random_schema(rng)
+        # the kernel-checked family first, then the further strict variants (harness/schemas.py: strict()), then a mix
+        pool = fam + schemas.strict()
+        bundled = si < len(pool) or rng.random() < 0.6
+        info = pool[si % len(pool)] if bundled else schemas.random_schema(rng)
+        if bundled and si % len(pool) >= len(fam):
+            ctx.count("strict-variant-schemas")
         schema = info.schema
         val = validator(schema)
         ctx.driver.add_schema(info)
